@@ -6,7 +6,7 @@ TV = "translation_validation"
 MC = "model_checking"
 
 trust_sh = ("trusted: RefTSH (reference AST evaluator) and ShSem (semantics of the emitted Bash subset, calibrated against "
-            "/bin/bash by `verif selftest`), intrinsic models of fmt/strings/strconv/regexp, z3 4.8.12 as deciding solver with every final verdict (thorough: every pruning unsat too) re-decided by z3 5.1.0; program shapes are "
+            "/bin/bash by `verif selftest`), intrinsic models of fmt/strings/strconv/regexp, z3 4.8.12 as deciding solver with every final verdict (thorough: every fourth pruning unsat too) re-decided by z3 5.1.0; program shapes are "
             "enumerated (listed in evidence), values/bytes on each shape are symbolic and decided by the solver; "
             "counterexamples are replayed on the native transpiler and the real bash before being reported; a path the engine or "
             "ShSem cannot interpret (e.g. after a refactoring) is decided by concrete native probes of that path and counted as such")
